@@ -272,7 +272,13 @@ def run(prog, tier) -> Result:
            judge_first_result, min_paths=3)
 
     # R14.3 temperature rows
-    cat = Catalogue(prog)
+    from ..catalogue import ModuleRaises
+    try:
+        cat = Catalogue(prog)
+    except ModuleRaises as e:
+        res.ob("R14.3", "quantity.predefined", "the catalogue can be imported", False, str(e),
+               sig="catalogue module raises at import time")
+        return res
     temp = cat.types.get("Temperature")
     if temp is None or not temp.converters:
         raise AnalysisError("anchor vanished: Temperature converter table in predefined.py")
